@@ -592,6 +592,14 @@ func (e *Env) call(ex *ECall) Value {
 		if full == "" {
 			e.errf("no method %s on %v", sel.Name, recv.Typ)
 		}
+		// auto-dereference: value-receiver method called through a pointer
+		if sig != nil && sig.Recv() != nil {
+			if _, rp := types.Unalias(sig.Recv().Type()).Underlying().(*types.Pointer); !rp {
+				if _, vp := types.Unalias(recv.Typ).Underlying().(*types.Pointer); vp {
+					args[0] = x.load(e.st, recv, false)
+				}
+			}
+		}
 		return x.applyExternPure(e, full, args, sig)
 	}
 	e.errf("unsupported call form")
